@@ -36,119 +36,136 @@ def run(repo, chk, tier):
     E = lambda s, b=None: expected_term(m, s, b or {})
     scope = Scope(fn)
 
-    # the ranked list and the set of all features
+    # the greedy rounds: a loop whose body (evaluated as one path, the candidate scan summarised as an arg-max) places one feature
+    from ..match import PathEval, run_paths
+    from ..terms import pattern, unify
     rets = returns(fn)
-    whiles = [n for n in own_nodes(fn.node) if isinstance(n, ast.While)]
-    if len(whiles) != 1:
-        chk.bad('C17.1a', 'R13', fn.site(), 'while len(ranked) < len(all_features)', f'{len(whiles)} selection loops found (expected one while loop)')
+    rounds = [n for n in fn.node.body if isinstance(n, (ast.While, ast.For)) and any(isinstance(c, ast.Call) and isinstance(c.func, ast.Attribute) and c.func.attr == 'append' for c in ast.walk(n))]
+    if len(rounds) != 1:
+        chk.bad('C17.1a', 'R13', fn.site(), 'while len(ranked) < len(all_features)', f'{len(rounds)} selection loops found (expected one loop of greedy rounds)', soft=True)
         return
-    wl = whiles[0]
-    appends = [c for c in ast.walk(wl) if isinstance(c, ast.Call) and isinstance(c.func, ast.Attribute) and c.func.attr == 'append' and isinstance(c.func.value, ast.Name)]
-    if len(appends) != 1:
-        chk.bad('C17.1b', 'R13', fn.site(wl), 'ranked.append(best)', f'{len(appends)} appends inside the selection loop: each round must place exactly one feature')
+    wl = rounds[0]
+    paths = run_paths(fn, None, None, max_forks=3, body=wl.body)
+    if paths is None or len(paths) != 1 or paths[0][1].unknown is not None:
+        node = paths[0][1].unknown if paths and paths[0][1].unknown is not None else wl
+        chk.unsure('C17.1b', 'R13', fn.site(node), ast.unparse(node).replace('\n', ' ')[:100], 'one greedy round could not be evaluated as a single path (a statement outside the vocabulary, or a test that is not decidable)')
         return
-    ranked = appends[0].func.value.id
-    best_name = appends[0].args[0].id if isinstance(appends[0].args[0], ast.Name) else None
-    # all_features
-    t = term_of(fn, wl.test, inline=False)
+    res = paths[0][1]
+    apps = [c for c in res.calls if isinstance(c['call'].func, ast.Attribute) and c['call'].func.attr == 'append' and isinstance(c['call'].func.value, ast.Name)]
+    if len(apps) != 1:
+        chk.bad('C17.1b', 'R13', fn.site(wl), 'ranked.append(best)', f'{len(apps)} appends in one greedy round: each round must place exactly one feature')
+        return
+    ranked = apps[0]['call'].func.value.id
+    placed = apps[0]['call'].args[0]
+    chk.ok('C17.1b', 'R13', fn.site(apps[0]['node']), ast.unparse(apps[0]['node']), 'exactly one feature is placed per round')
+    # the set of all features: bound before the loop to the key set of the relevance dictionary
+    pe = PathEval(fn, None, None, None, stop_at=wl)
+    pre = pe.run()
+    env0 = pre.env_at_stop or {}
     allf = None
-    for cand in scope.defs:
-        d = scope.single_def(cand)
-        if d is not None and term_of(fn, d, inline=True) in (E(f'set({rel}.keys())'), E(f'set({rel})'), E(f'list({rel}.keys())'), E(f'list({rel})')):
-            allf = cand
+    for k, v in env0.items():
+        if v is not None and term_of(fn, v, inline=False) in (E(f'set({rel}.keys())'), E(f'set({rel})'), E(f'list({rel}.keys())'), E(f'list({rel})')):
+            allf = k
     if allf is None:
-        chk.bad('C17.1c', 'origin', fn.site(), f'all_features = set({rel}.keys())', 'the set of features to rank is not the key set of the relevance dictionary')
+        chk.bad('C17.1c', 'origin', fn.site(), f'all_features = set({rel}.keys())', 'the set of features to rank is not the key set of the relevance dictionary', soft=True)
         return
-    chk.expect(t == E(f'len({ranked}) < len({allf})'), 'C17.1a', 'R14', fn.site(wl), ast.unparse(wl.test), 'rounds continue until every feature is placed', f'the loop must run while len(ranked) < len(all features); found {show(t)[:100]}')
-    # append is at the top level of the while body (once per round), not inside the candidate loop
-    chk.expect(any(isinstance(s, ast.Expr) and s.value is appends[0] for s in wl.body), 'C17.1b', 'R13', fn.site(appends[0]), ast.unparse(appends[0]), 'exactly one feature is placed per round', 'the append must happen exactly once per round (at the top level of the while body)')
-    # candidate loop
-    fors = [n for n in wl.body if isinstance(n, ast.For)]
-    if len(fors) != 1 or not isinstance(fors[0].target, ast.Name):
-        chk.bad('C17.1d', 'R13', fn.site(wl), f'for feat in {allf} - set({ranked})', 'candidate loop not found')
+    # the rounds continue until every feature is placed
+    if isinstance(wl, ast.While):
+        t = term_of(fn, wl.test, inline=False)
+        chk.expect_term(t, [E(f'len({ranked}) < len({allf})'), E(f'len({ranked}) != len({allf})')], 'C17.1a', 'R14', fn.site(wl), ast.unparse(wl.test), 'rounds continue until every feature is placed', f'the loop must run while len(ranked) < len(all features); found {show(t)[:100]}')
+    else:
+        it = term_of(fn, wl.iter, inline=True)
+        chk.expect_term(it, [E(f'range(len({allf}) - 1)'), E(f'range(1, len({allf}))'), E(f'range(len({rel}) - 1)'), E(f'range(1, len({rel}))'), E(f'range(len(set({rel}.keys())) - 1)'), E(f'range(1, len(set({rel}.keys())))')], 'C17.1a', 'R14', fn.site(wl), ast.unparse(wl.iter),
+                        'one round per feature that is not placed yet (the first one is placed before the loop)', f'the rounds must place all remaining features: len(all features) - 1 rounds; found {show(it)[:100]}')
+    # the feature placed: the arg-max of the objective over the features not ranked yet
+    pt = term_of(fn, placed, inline=False)
+    b_ = unify(pattern(m, '__argmax__(GEN, start=S, strict=ST, rel=RL, tracked=TR, unset=UN)', ['GEN', 'S', 'ST', 'RL', 'TR', 'UN']), pt)
+    if b_ is None or b_['GEN'][0] != 'genexp' or len(b_['GEN'][2]) != 1:
+        if isinstance(placed, ast.Name):
+            chk.unsure('C17.3', 'R14', fn.site(apps[0]['node']), ast.unparse(placed)[:100], 'the scan over the candidates was not recognised as an arg-max loop (running best value and best feature updated together on improvement)')
+        else:
+            chk.bad('C17.3', 'R14', fn.site(apps[0]['node']), ast.unparse(placed)[:140], 'the feature placed in a round is not the candidate with the largest objective', soft=True)
         return
-    fl = fors[0]
-    cand = fl.target.id
-    it = term_of(fn, fl.iter, inline=False)
+    from ..terms import alpha_norm, walk_term
+    cands, ifs = b_['GEN'][2][0]
+    # the objective with the candidate as a free marker (so that its own comprehension variables are numbered independently)
+    gv = next((x for x in walk_term(b_['GEN'][1]) if isinstance(x, tuple) and len(x) == 3 and x[0] == 'cvar'), ('cvar', 0, 0))
+    cand_var = None
+    # the generator variable is the one bound by the single generator of GEN: the lowest-numbered comprehension variable of the whole term
+    allcv = sorted({x for x in walk_term(pt) if isinstance(x, tuple) and len(x) == 3 and x[0] == 'cvar' and isinstance(x[1], int)}, key=lambda x: x[1])
+
+    def _rep(t, a, b2):
+        if t == a:
+            return b2
+        if isinstance(t, tuple):
+            return tuple(_rep(x, a, b2) for x in t)
+        return t
+    # find which cvar is the candidate: the one that indexes the relevance dictionary, or else the only one outside inner comprehensions
+    cand_var = next((x[2] for x in walk_term(b_['GEN'][1]) if isinstance(x, tuple) and len(x) == 3 and x[0] == 'sub' and x[1] == ('name', rel) and isinstance(x[2], tuple) and x[2][:1] == ('cvar',)), allcv[0] if allcv else ('cvar', 0, 0))
+    cv = ('role', 'cand')
+    obj = alpha_norm(_rep(b_['GEN'][1], cand_var, cv))
     forms = [E(f'{allf} - set({ranked})'), E(f'{allf}.difference({ranked})'), E(f'{allf}.difference(set({ranked}))'), E(f'[f for f in {allf} if f not in {ranked}]'), E(f'(f for f in {allf} if f not in {ranked})'),
              E(f'set({allf}) - set({ranked})')]
-    chk.expect(it in forms, 'C17.1d', 'R15', fn.site(fl), ast.unparse(fl.iter), 'candidates = features not yet ranked (so no feature is placed twice and none is left out)', f'candidates of a round must be all_features - set(ranked); found {show(it)[:100]}')
-    # best variable is assigned only from the candidate loop variable (besides its reset)
-    bdefs = [n for n in ast.walk(wl) if isinstance(n, ast.Assign) and any(isinstance(tg, ast.Name) and tg.id == best_name for tg in n.targets)]
-    okb = best_name is not None and all((isinstance(d.value, ast.Name) and d.value.id == cand) or (isinstance(d.value, ast.Constant) and d.value.value is None and d in wl.body) for d in bdefs) and any(isinstance(d.value, ast.Name) for d in bdefs)
-    chk.expect(okb, 'C17.1e', 'origin', fn.site(appends[0]), f'{best_name} <- {cand}', 'the placed feature is one of the remaining candidates', 'the feature placed in a round must be assigned only from the candidate loop variable')
-
-    # -- 2 start
-    init = [n for n in own_nodes(fn.node) if isinstance(n, ast.Assign) and any(isinstance(tg, ast.Name) and tg.id == ranked for tg in n.targets)]
-    oks = False
-    if len(init) == 1 and isinstance(init[0].value, ast.List) and len(init[0].value.elts) == 1:
-        e0 = init[0].value.elts[0]
-        if isinstance(e0, ast.Name):
-            prev = [n for n in fn.node.body if isinstance(n, ast.Assign) and isinstance(n.targets[0], ast.Name) and n.targets[0].id == e0.id and n.lineno < init[0].lineno]
-            if prev:
-                e0 = prev[-1].value
-        st = term_of(fn, e0, inline=False)
-        oks = st in (E(f'max({rel}.items(), key=operator.itemgetter(1))[0]'), E(f'max({rel}, key={rel}.get)'), E(f'max({rel}.keys(), key={rel}.get)'), E(f'max({rel}.items(), key=lambda kv: kv[1])[0]'),
-                     E(f'max({rel}, key=lambda k: {rel}[k])'))
-    chk.expect(oks, 'C17.2', 'R15', fn.site(init[0]) if init else fn.site(), ast.unparse(init[0]) if init else 'ranked = [argmax relevance]', 'the ranking starts with a feature of maximal relevance', 'the ranked list must start with [a feature of maximal relevance]')
-
-    # -- 3 arg-max discipline
-    upd = [n for n in ast.walk(fl) if isinstance(n, ast.If) and any(isinstance(x, ast.Assign) and any(isinstance(tg, ast.Name) and tg.id == best_name for tg in x.targets) for x in n.body)]
-    if len(upd) != 1:
-        chk.bad('C17.3', 'R14', fn.site(fl), 'if importance > top: top = importance; best = feat', 'improvement test not found')
-        return
-    u = upd[0]
-    ut = term_of(fn, u.test, inline=False)
-    top_name = None
-    imp_name = None
-    if ut[0] == 'cmp' and ut[1] in ('<', '<=') and ut[2][0] == 'name' and ut[3][0] == 'name':
-        top_name, imp_name = ut[2][1], ut[3][1]
-    okt = top_name is not None
-    chk.expect(okt, 'C17.3a', 'R14', fn.site(u), ast.unparse(u.test), 'a candidate replaces the running best iff its objective is larger', f'the improvement test must be exactly `importance > best_so_far` (or >=); found {show(ut)[:100]}')
-    if not okt:
-        return
-    sets_top = any(isinstance(x, ast.Assign) and isinstance(x.targets[0], ast.Name) and x.targets[0].id == top_name and isinstance(x.value, ast.Name) and x.value.id == imp_name for x in u.body)
-    chk.expect(sets_top and not u.orelse, 'C17.3b', 'R13', fn.site(u), ast.unparse(u).replace('\n', ' ')[:120], 'best value and best feature are updated together', 'when a candidate improves, both the running best value and the best feature must be updated (and nothing else)')
-    resets = [s for s in wl.body if isinstance(s, ast.Assign) and isinstance(s.targets[0], ast.Name) and s.targets[0].id == top_name and s.lineno < fl.lineno]
-    okr = len(resets) == 1 and term_of(fn, resets[0].value, inline=False) in (E('-numpy.inf'), E("float('-inf')"), E('-math.inf'), E("-float('inf')"))
-    other_top = [n for n in own_nodes(fn.node) if isinstance(n, (ast.Assign, ast.AugAssign)) and any(isinstance(tg, ast.Name) and tg.id == top_name for tg in (n.targets if isinstance(n, ast.Assign) else [n.target])) and n not in resets and not any(x is n for x in ast.walk(u))]
-    chk.expect(okr and not other_top, 'C17.3c', 'R8', fn.site(resets[0]) if resets else fn.site(wl), ast.unparse(resets[0]) if resets else f'{top_name} = -np.inf', 'the running best starts at -inf in every round (any finite objective beats it)',
+    forms += [Canon(m, Scope(None), inline=False, bound={allf: term_of(fn, env0[allf], inline=False)}).t(ast.parse(x, mode='eval').body) for x in (f'{allf} - set({ranked})', f'{allf}.difference({ranked})')]
+    chk.expect_term(cands, forms, 'C17.1d', 'R15', fn.site(wl), show(cands)[:100], 'candidates = features not yet ranked (so no feature is placed twice and none is left out)', f'candidates of a round must be all_features - set(ranked); found {show(cands)[:100]}', extra_ok=not ifs)
+    chk.ok('C17.1e', 'origin', fn.site(apps[0]['node']), ast.unparse(apps[0]['node'])[:100], 'the placed feature is one of the remaining candidates (the arg-max of the scan)')
+    chk.expect(b_['RL'] in (('str', '>'), ('str', '>=')), 'C17.3a', 'R14', fn.site(wl), f'candidate replaces the running best when its objective is {b_["RL"][1]} it', 'a candidate replaces the running best iff its objective is larger',
+               f'the improvement test must be `importance > best_so_far` (or >=): with `{b_["RL"][1]}` the round places the feature with the SMALLEST objective')
+    chk.expect(b_['TR'] == ('bool', True), 'C17.3b', 'R13', fn.site(wl), 'running best value and best feature', 'best value and best feature are updated together',
+               'when a candidate improves, both the running best value and the best feature must be updated: otherwise the last candidate that beats the start value is placed, not the best one')
+    start_ok = b_['S'] in (E('-numpy.inf'), E("float('-inf')"), E('-math.inf'), E("-float('inf')")) or (b_['S'] == ('none',) and b_['UN'] == ('str', 'none'))
+    if b_['UN'] == ('str', 'falsy'):
+        chk.bad('C17.3c', 'R8', fn.site(wl), f'start = {show(b_["S"])[:60]}; `not best_so_far or ...`', 'the running best is treated as "not set yet" whenever it is falsy: a best objective of exactly 0.0 is replaced by any later candidate, so the feature placed is not the arg-max')
+    chk.expect(start_ok or b_['UN'] == ('str', 'falsy'), 'C17.3c', 'R8', fn.site(wl), f'start = {show(b_["S"])[:60]}', 'the running best starts at -inf in every round (any finite objective beats it)',
                'the running best must be reset to -inf at the start of every round: with another sentinel a maximal candidate (e.g. objective 0 or negative) can be overlooked')
 
+    # -- 2 start: the ranked list before the first round
+    r0 = env0.get(ranked)
+    oks = False
+    if isinstance(r0, ast.List) and len(r0.elts) == 1:
+        st = term_of(fn, r0.elts[0], inline=False)
+        oks = st in (E(f'max({rel}.items(), key=operator.itemgetter(1))[0]'), E(f'max({rel}, key={rel}.get)'), E(f'max({rel}.keys(), key={rel}.get)'), E(f'max({rel}.items(), key=lambda kv: kv[1])[0]'),
+                     E(f'max({rel}, key=lambda k: {rel}[k])'))
+    uses_min = r0 is not None and any(isinstance(c, ast.Call) and isinstance(c.func, ast.Name) and c.func.id in ('min', 'sorted') for c in ast.walk(r0))
+    chk.expect(oks, 'C17.2', 'R15', fn.site(), ast.unparse(r0)[:120] if r0 is not None else 'ranked = [argmax relevance]', 'the ranking starts with a feature of maximal relevance', 'the ranked list must start with [a feature of maximal relevance]', soft=not uses_min)
+
     # -- 4 objective
-    idef = [n for n in ast.walk(fl) if isinstance(n, ast.Assign) and isinstance(n.targets[0], ast.Name) and n.targets[0].id == imp_name]
-    helper = next((f for q, f in m.funcs.items() if q.startswith('rank_features_3MR.') ), None)
-    if len(idef) != 1 or helper is None:
-        chk.bad('C17.4', 'R15', fn.site(fl), 'importance = relevance - alpha * redundancy + beta * relation', 'objective definition (or its aggregation helper) not found')
-        return
-    hn = helper.name
-    loop_scope_defs = {}
-    for n in ast.walk(fl):
-        if isinstance(n, ast.Assign) and isinstance(n.targets[0], ast.Name):
-            loop_scope_defs.setdefault(n.targets[0].id, []).append(n.value)
-    bound = {}
-    cn = Canon(m, Scope(None), inline=False, bound={})
-
-    def inl(e, depth=0):
-        # inline names defined exactly once inside the candidate loop
-        class T(ast.NodeTransformer):
-            def visit_Name(self, node):
-                if node.id in loop_scope_defs and len(loop_scope_defs[node.id]) == 1 and node.id != imp_name and depth < 5:
-                    return inl(loop_scope_defs[node.id][0], depth + 1)
-                return node
-        import copy
-        return T().visit(copy.deepcopy(e))
-    ot = cn.t(inl(idef[0].value))
-    hp = helper.params
-    flagp = hp[1] if len(hp) > 1 else None
-    red_forms = [f'{hn}({cand})', f'{hn}({cand}, True)', f'{hn}({cand}, {flagp}=True)']
-    rel_forms = [f'{hn}({cand}, False)', f'{hn}({cand}, {flagp}=False)']
-    wants = [E(f'{rel}[{cand}] - {alpha} * {a} + {beta} * {b}') for a in red_forms for b in rel_forms]
-    chk.expect(ot in wants, 'C17.4', 'R15', fn.site(idef[0]), ast.unparse(idef[0]), 'objective = relevance - alpha * agg(redundancy) + beta * agg(relation)',
-               f'the objective must be relevance[f] - alpha * aggregate(redundancy with ranked) + beta * aggregate(relation with ranked); found {show(ot)[:200]}')
-
-    # -- 5 aggregation helper
-    aggregator(chk, fn, helper, ranked, red, relat, strategy, E)
+    helper = next((f for q, f in m.funcs.items() if q.startswith('rank_features_3MR.')), None)
+    BC = {'f': cv}
+    X = lambda src: expected_term(m, src, BC)
+    wants = []
+    if helper is not None:
+        hn = helper.name
+        hp = helper.params
+        flagp = hp[1] if len(hp) > 1 else None
+        red_forms = [f'{hn}(f)', f'{hn}(f, True)', f'{hn}(f, {flagp}=True)']
+        rel_forms = [f'{hn}(f, False)', f'{hn}(f, {flagp}=False)']
+        wants += [X(f'{rel}[f] - {alpha} * {a_} + {beta} * {b2}') for a_ in red_forms for b2 in rel_forms]
+        # a helper that receives the dictionary to aggregate over instead of a flag
+        wants_by_dict = [X(f'{rel}[f] - {alpha} * {hn}(f, {red}) + {beta} * {hn}(f, {relat})')]
+    # the same objective with the aggregation written out (no closure)
+    def agg(dname):
+        vals = f'[{dname}.get((r, f), 0) for r in {ranked}]'
+        return [f"(numpy.median({vals}) if {strategy} == 'median' else (numpy.mean({vals}) if {strategy} == 'mean' else sum({vals})))"]
+    wants_inl = [X(f'{rel}[f] - {alpha} * {a_} + {beta} * {b2}') for a_ in agg(red) for b2 in agg(relat)]
+    # the aggregate chosen once before the rounds: AGG = {'median': np.median, 'mean': np.mean}.get(strategy, sum)
+    dispatch = E(f"{{'median': numpy.median, 'mean': numpy.mean}}.get({strategy}, sum)")
+    for k0, v0 in env0.items():
+        if v0 is not None and term_of(fn, v0, inline=False) == dispatch:
+            vals = lambda dname: f'[{dname}.get((r, f), 0) for r in {ranked}]'
+            wants_inl.append(X(f'{rel}[f] - {alpha} * {k0}({vals(red)}) + {beta} * {k0}({vals(relat)})'))
+    if helper is not None and obj in wants_by_dict and obj in wants_inl:
+        chk.ok('C17.4', 'R15', fn.site(wl), show(obj)[:160], 'objective = relevance - alpha * agg(redundancy) + beta * agg(relation), aggregation over all ranked features written out')
+    elif obj in wants:
+        chk.ok('C17.4', 'R15', fn.site(wl), show(obj)[:160], 'objective = relevance - alpha * agg(redundancy) + beta * agg(relation)')
+        # -- 5 aggregation helper
+        aggregator(chk, fn, helper, ranked, red, relat, strategy, E)
+    elif obj in wants_inl:
+        chk.ok('C17.4', 'R15', fn.site(wl), show(obj)[:160], 'objective = relevance - alpha * agg(redundancy) + beta * agg(relation), aggregation over all ranked features written out')
+    else:
+        chk.expect_term(obj, wants + wants_inl, 'C17.4', 'R15', fn.site(wl), show(obj)[:200], '', f'the objective must be relevance[f] - alpha * aggregate(redundancy with ranked) + beta * aggregate(relation with ranked); found {show(obj)[:200]}')
+        if helper is not None:
+            aggregator(chk, fn, helper, ranked, red, relat, strategy, E)
 
     # -- 6 ranks
     if len(rets) == 1:
